@@ -482,6 +482,40 @@ def run(run: Run) -> int:
         if set(fa) != set(fb) or any(not close(fa[x], fb[x], rel=1e-9, abs_=1e-15) for x in fa) \
                 or not close(a.density, b.density):
             run.violation("rescaling a component's formula unit changes the mixture", inp)
+    # ... also when the unit is rescaled in the spelling of a single-element component (which gets its
+    # density from the element): Si, Si2, 2Si, (Si)2, SiSi are the same material
+    dense = [el.symbol for el in tbl if el.density is not None and el.number > 0]
+    for i in range(60 if run.tier == "quick" else 1500):
+        sym = run.rng.choice(dense)
+        k = run.rng.choice([2, 3, 5, 12])
+        spellings = [sym, "%s%d" % (sym, k), "%d%s" % (k, sym), "(%s)%d" % (sym, k), sym + sym, "%s+%s" % (sym, sym)]
+        q1, q2 = float(qtext(run.rng, allow_zero=False)), float(qtext(run.rng, allow_zero=False))
+        other = run.rng.choice(["H2O@1", "NaCl@2.16", "Fe", "D2O@1n"])
+        by_vol = run.rng.random() < 0.5
+        fn = mix_by_volume if by_vol else mix_by_weight
+        inp = dict(spellings=spellings, other=other, quantities=[q1, q2], by="volume" if by_vol else "weight")
+        run.count(key="spell" + repr(inp), nontrivial=True, tag="unit-spelling")
+        ref = None
+        for sp in spellings:
+            try:
+                r = fn(sp, q1, other, q2)
+                text = "%g%s%% %s // %s" % (30, "vol" if by_vol else "wt", sp if "+" not in sp else "(%s)" % sp, other)
+                r2 = formula(text)
+                got = ({pyside.key_of(x): v for x, v in r.mass_fraction.items()}, r.density, r2.density)
+            except Exception as e:  # noqa
+                got = "raises %s" % type(e).__name__
+            if ref is None:
+                ref = got
+            elif isinstance(ref, str) or isinstance(got, str):
+                if ref != got:
+                    run.violation("a mixture with the component spelled %r %s, spelled %r it %s"
+                                  % (sp, got if isinstance(got, str) else "works", spellings[0],
+                                     ref if isinstance(ref, str) else "works"), inp)
+                    break
+            elif set(ref[0]) != set(got[0]) or any(not close(ref[0][x], got[0][x], rel=1e-9, abs_=1e-15) for x in ref[0]) \
+                    or not close(ref[1], got[1]) or not close(ref[2], got[2]):
+                run.violation("spelling the single-element component %r instead of %r changes the mixture" % (sp, spellings[0]), inp)
+                break
     return run.finish(RULE, assumptions=[
         "two models meet at the mixture strings: Model/Mix.lean evaluates the expression a string was rendered "
         "from (semantic actions), Model/GrammarMix.lean `parseTop` reads the string itself to a term "
